@@ -432,7 +432,11 @@ static void cond_handshake(vf::Ctx& c)
 	int nTimed = c.rng.range(0, 3), nPlain = c.rng.range(nTimed ? 0 : 1, 2);
 	int N = nTimed + nPlain;
 	double tmo = 8.0;
-	c.desc(vf::fmt("condition handshake: %d waiters in wait(%g s), %d in wait(), one signal once all are waiting", nTimed, tmo, nPlain));
+	// late unlock (1 handshake in 40): the signal is issued well before the waiters' deadline, but the signaller keeps the mutex
+	// until after it; a waiter that was signalled in time still reports "signalled", however late it gets the mutex back
+	bool lateUnlock = c.idx % 160 == 3;
+	if (lateUnlock) { nTimed = 2; nPlain = 0; N = 2; tmo = 5.0; }
+	c.desc(vf::fmt("condition handshake: %d waiters in wait(%g s), %d in wait(), one signal once all are waiting%s", nTimed, tmo, nPlain, lateUnlock ? ", mutex released only after the waiters' deadline" : ""));
 	Mutex mutex, other;
 	// a third of the handshakes bind the condition to another mutex first and then to the one the protocol uses
 	int bind = (int)c.rng.below(3);
@@ -478,6 +482,7 @@ static void cond_handshake(vf::Ctx& c)
 	go = true;
 	double ts = vf::now();
 	cond.signal();
+	if (lateUnlock) { struct timespec hold = {5, 800000000}; nanosleep(&hold, 0); c.count("cond_handshakes_with_late_unlock"); }
 	mutex.unlock();
 	// rescue untimed waiters if the signal was lost, so that the case ends; timed ones leave by themselves after tmo
 	while (left < N) {
